@@ -389,6 +389,9 @@ func runC04(r *core.Run) {
 	}
 	obs = append(obs, obs2...)
 	for i := range obs {
+		if obs[i].Skipped {
+			continue // not executed: the run had already met many calls that do not return
+		}
 		if opT[i] < 0 {
 			continue
 		}
